@@ -21,8 +21,8 @@ claimed = {
          'Trusts go/types+go/ssa.', 'DESIGN.md §2 C16'),
 
  'C19': ('effect-confinement scans (global / receiver stores) over the wire-reachable call graph + lockset (guarded-by) dataflow with gen/kill on Lock/Unlock',
-         'Structural necessary conditions only: wire-reachable code writes no package-level state, shared server objects are never written through their receivers, the sqlite store signs with the secret it read back, the service-info pipes access their buffer/error/channels only under their mutexes (one reviewed exception), the closable readers channel is sent on only after its close indicator was seen open under the closing lock, no mutating method is called on package-level objects, and sqlite.Open limits its pool to one connection. Race freedom in general, deadlock freedom, lost wake-ups and isolation inside other backends are properties of schedules and are not decided.',
-         'Trusts go/types+go/ssa; lock identity is by canonical receiver address within one function; the guarded-field table and its single exception are in /verif/checker/c19.go.', 'DESIGN.md §2 C19'),
+         'Structural necessary conditions only: wire-reachable code writes no package-level state, shared server objects are never written through their receivers, the sqlite store signs with the secret it read back, the service-info pipes access their buffer/error/channels only under their mutexes (one reviewed exception), the closable readers channel is sent on only after its close indicator was seen open under the closing lock, no mutating method is called on package-level objects, sqlite.Open limits its pool to one connection, and every field of the service-info writer that a closer and the producer both touch (with a write on either side) is accessed under one common mutex. Race freedom in general, deadlock freedom, lost wake-ups and isolation inside other backends are properties of schedules and are not decided.',
+         'Trusts go/types+go/ssa; lock identity is by canonical receiver address, carried into helpers through their call sites; the guarded-field table and its single exception are in /verif/checker/c19.go.', 'DESIGN.md §2 C19'),
 
  'C10': ('peer-taint analysis over the class-hierarchy call graph + guard obligations (explicit panics, partial lookups, allocations, compiler-unproven bounds, stdlib preconditions, type assertions, decoded-pointer nil checks) + must-pass dataflow',
          'Structural necessary conditions over all code reachable from the wire entry points: no explicit panic, unbounded allocation, unguarded index/slice (among those the Go compiler could not prove), unguarded stdlib precondition or unchecked type assertion is reachable with a peer-controlled operand without a dominating guard; pointers the decoder can leave nil (CBOR null) are compared with nil before they are dereferenced; responders convert failures to error messages; content-length guards dominate body processing. Nil dereferences of pointers that do not come from decoding, hangs, CPU and memory below the bounds are not decided.',
